@@ -68,9 +68,10 @@ def stale_cases(seed, n):
 def run(ctx, res):
     import scenarios
     fam = [] if ctx.replay else (scenarios.pick(scenarios.family_joins(), 300 if ctx.tier == "quick" else 10 ** 6, ctx.seed + 1)
-                                 + scenarios.pick(scenarios.family_a(), 150 if ctx.tier == "quick" else 10 ** 6, ctx.seed))
+                                 + scenarios.pick(scenarios.family_a(), 150 if ctx.tier == "quick" else 10 ** 6, ctx.seed)
+                                 + scenarios.family_names())
     pipeprop.run(ctx, res, "C09", PROFILE, n_quick=300, n_thorough=6000, probe_ids=(), extra_cases=fam)
-    res.coverage["scenario_grid"] = {"family": "joins + A (references to hidden / overwritten / suffixed columns)", "cases": len(fam)}
+    res.coverage["scenario_grid"] = {"family": "joins + A + N (references to hidden / overwritten / suffixed columns, same-named columns across a subquery)", "cases": len(fam)}
     if ctx.replay:
         return
     n = 80 if ctx.tier == "quick" else 800
